@@ -330,6 +330,51 @@ Definition read_control7 (ws : list warning7) (h : PacketHeader7) (nbytes : nat)
     else (ws, Err E7UnknownControl)
   end.
 
+(* read_impl, connectionless branch *)
+Definition read_connless7 (ws : list warning7) (bs : bytes) : rres7 :=
+  match PacketHeaderConnlessPacked7_of_bytes bs with
+  | None => (ws, Err E7TooShort)
+  | Some (hcp, cpayload) =>
+    let (hc, ws2) := PacketHeaderConnlessPacked7_unpack_warn hcp in
+    let ws := ws ++ ws2 in
+    if negb (phc7_version hc =? CONNLESS_VERSION) then (ws, Err E7UnknownConnlessVersion) else
+    let cf := phc7_flags hc in
+    let ws := ws ++ (if land_ne0 cf PACKETFLAG_COMPRESSION || land_ne0 cf PACKETFLAG_REQUEST_RESEND
+                        || land_ne0 cf PACKETFLAG_CONTROL then [W7ConnlessFlags] else []) in
+    let pl := {| s_src := Input; s_off := Z.to_nat HEADER_SIZE_CONNLESS; s_data := cpayload |} in
+    (ws, Ok (P7Connless cpayload (phc7_token hc) (phc7_response_token hc), [view_of pl]))
+  end.
+
+Definition payload_slice7 (decomp : HuffC7) (bs : bytes) (cap : option nat) (flags : Z) (payload : bytes)
+  : res rderr7 slice :=
+  if land_ne0 flags PACKETFLAG_COMPRESSION then
+    match cap with
+    | None => Panic site7_read_no_buffer
+    | Some c =>
+      match decompress7 decomp bs c with
+      | Ok scratch =>
+        match PacketHeaderPacked7_of_bytes scratch with
+        | Some (_, pl) => Ok {| s_src := Scratch; s_off := Z.to_nat HEADER_SIZE; s_data := pl |}
+        | None => Panic site7_decompress_unwrap
+        end
+      | Err _ => Err E7Compression
+      | Panic s => Panic s
+      | OutOfFuel => OutOfFuel
+      end
+    end
+  else Ok {| s_src := Input; s_off := Z.to_nat HEADER_SIZE; s_data := payload |}.
+
+(* read_impl from the size check of the (decompressed) payload on; nbytes = bytes.len() *)
+Definition read_payload7 (ws : list warning7) (h : PacketHeader7) (nbytes : nat) (p : slice) : rres7 :=
+  let flags := ph7_flags h in
+  if Z.of_nat (length (s_data p)) >? MAX_PACKETSIZE - HEADER_SIZE then (ws, Err E7Compression) else
+  if land_ne0 flags PACKETFLAG_CONTROL then read_control7 ws h nbytes p
+  else
+    let request_resend := land_ne0 flags PACKETFLAG_REQUEST_RESEND in
+    let ws := ws ++ (if (ph7_num_chunks h =? 0) && negb request_resend then [W7ChunksNoChunks] else []) in
+    (ws, Ok (P7Connected (ph7_ack h) (ph7_token h) (P7Chunks request_resend (ph7_num_chunks h) (s_data p)),
+             [view_of p])).
+
 Definition read_impl7 (decomp : HuffC7) (bs : bytes) (cap : option nat) : rres7 :=
   if match cap with Some c => Z.of_nat c <? MAX_PACKETSIZE | None => false end
   then ([], Panic site7_read_small_buffer) else
@@ -337,50 +382,12 @@ Definition read_impl7 (decomp : HuffC7) (bs : bytes) (cap : option nat) : rres7 
   match header_of7 bs with
   | None => ([], Err E7TooShort)
   | Some (h, ws, payload) =>
-    let flags := ph7_flags h in
-    if land_ne0 flags PACKETFLAG_CONNLESS then
-      match PacketHeaderConnlessPacked7_of_bytes bs with
-      | None => (ws, Err E7TooShort)
-      | Some (hcp, cpayload) =>
-        let (hc, ws2) := PacketHeaderConnlessPacked7_unpack_warn hcp in
-        let ws := ws ++ ws2 in
-        if negb (phc7_version hc =? CONNLESS_VERSION) then (ws, Err E7UnknownConnlessVersion) else
-        let cf := phc7_flags hc in
-        let ws := ws ++ (if land_ne0 cf PACKETFLAG_COMPRESSION || land_ne0 cf PACKETFLAG_REQUEST_RESEND
-                            || land_ne0 cf PACKETFLAG_CONTROL then [W7ConnlessFlags] else []) in
-        let pl := {| s_src := Input; s_off := Z.to_nat HEADER_SIZE_CONNLESS; s_data := cpayload |} in
-        (ws, Ok (P7Connless cpayload (phc7_token hc) (phc7_response_token hc), [view_of pl]))
-      end
-    else
-    let payload_r : res rderr7 slice :=
-      if land_ne0 flags PACKETFLAG_COMPRESSION then
-        match cap with
-        | None => Panic site7_read_no_buffer
-        | Some c =>
-          match decompress7 decomp bs c with
-          | Ok scratch =>
-            match PacketHeaderPacked7_of_bytes scratch with
-            | Some (_, pl) => Ok {| s_src := Scratch; s_off := Z.to_nat HEADER_SIZE; s_data := pl |}
-            | None => Panic site7_decompress_unwrap
-            end
-          | Err _ => Err E7Compression
-          | Panic s => Panic s
-          | OutOfFuel => OutOfFuel
-          end
-        end
-      else Ok {| s_src := Input; s_off := Z.to_nat HEADER_SIZE; s_data := payload |} in
-    match payload_r with
+    if land_ne0 (ph7_flags h) PACKETFLAG_CONNLESS then read_connless7 ws bs else
+    match payload_slice7 decomp bs cap (ph7_flags h) payload with
     | Err e => (ws, Err e)
     | Panic s => (ws, Panic s)
     | OutOfFuel => (ws, OutOfFuel)
-    | Ok p =>
-      if Z.of_nat (length (s_data p)) >? MAX_PACKETSIZE - HEADER_SIZE then (ws, Err E7Compression) else
-      if land_ne0 flags PACKETFLAG_CONTROL then read_control7 ws h (length bs) p
-      else
-        let request_resend := land_ne0 flags PACKETFLAG_REQUEST_RESEND in
-        let ws := ws ++ (if (ph7_num_chunks h =? 0) && negb request_resend then [W7ChunksNoChunks] else []) in
-        (ws, Ok (P7Connected (ph7_ack h) (ph7_token h) (P7Chunks request_resend (ph7_num_chunks h) (s_data p)),
-                 [view_of p]))
+    | Ok p => read_payload7 ws h (length bs) p
     end
   end.
 
